@@ -143,3 +143,31 @@ Theorem T07_ids_typed : forall e dm doc doc', Permutation doc doc' ->
   (attr_errors_t false e dm doc = [] <-> attr_errors_t false e dm doc' = []).
 Proof. exact ids_order_independent_t. Qed.
 Print Assumptions T07_ids_typed.
+
+(** ---- the name spaces of a DTD: general entities, parameter entities, notations and element types do not see
+    each other, and the first declaration within a kind is binding *)
+Theorem T07_decl_kinds_separate : forall a k m b, is_general k = false ->
+  env_of_decls (a ++ (k, m) :: b) = env_of_decls (a ++ b).
+Proof. exact decl_kinds_separate. Qed.
+Print Assumptions T07_decl_kinds_separate.
+
+Theorem T07_decl_first_wins : forall n a b k0, first_general n a = Some k0 -> first_general n (a ++ b) = Some k0.
+Proof. exact first_general_wins. Qed.
+Print Assumptions T07_decl_first_wins.
+
+Theorem T07_decl_env : forall ds n,
+  (memb n (unparsed (env_of_decls ds)) = true <-> first_general n ds = Some KUnparsed) /\
+  (memb n (parsed (env_of_decls ds)) = true <-> first_general n ds = Some KParsed).
+Proof. intros ds n. split; [apply env_unparsed_iff|apply env_parsed_iff]. Qed.
+Print Assumptions T07_decl_env.
+
+Theorem T07_attrs_ignore_other_kinds : forall sw a k m b dm doc, is_general k = false ->
+  attr_errors_t sw (env_of_decls (a ++ (k, m) :: b)) dm doc = attr_errors_t sw (env_of_decls (a ++ b)) dm doc.
+Proof. exact attrs_ignore_other_kinds. Qed.
+Print Assumptions T07_attrs_ignore_other_kinds.
+
+Example T07_decl_kinds_nonvacuous :
+  let ds := [(KParam, 50); (KUnparsed, 50); (KParsed, 50); (KNotation, 50); (KParsed, 60); (KParam, 60)] in
+  memb 50 (unparsed (env_of_decls ds)) = true /\ memb 50 (parsed (env_of_decls ds)) = false /\
+  memb 60 (parsed (env_of_decls ds)) = true /\ memb 60 (unparsed (env_of_decls ds)) = false.
+Proof. vm_compute. auto. Qed.
